@@ -103,7 +103,7 @@ def main(chk, args):
     obs = pipeline.run_cases(cases, want_import=True)
     traces = []
     for c, o in zip(cases, obs):
-        k = c11.key_of(c['req']) + '|' + c['req']['extra']
+        k = c11.key_of(c['req'])
         chk.case(k, nontrivial=bool(c['expect']['metadataJson']) or c['req']['extra'] != 'none')
         diffs = compare(c, o)
         if diffs:
